@@ -274,6 +274,8 @@ func runCase(em *emitter, dir string, c Case, seed int64, ops map[string]bool, b
 		gs.prevDir, gs.prev = "", nil
 	}
 	conc := gs.conc
+	w = conc.Rename(w)
+	c.World = w
 	cb, _ := json.Marshal(conc)
 	if c.Args == nil {
 		c.Args = []interface{}{}
